@@ -86,7 +86,8 @@ def projects(draw: Any, cycles: bool = False, star_consumers: bool = False) -> D
             elif draw(st.booleans()) and e['form'] != 'star':
                 e['via'] = 'api'
             consumers[0]['uses'].insert(0, {'obj': d['name'], 'from': m, 'how': draw(st.sampled_from(['modalias', 'dotted', 'pkgalias'])), 'as': 'base', 'rebind': False, 'cvar': True})
-    extra = {'cycle': cycles and draw(st.booleans()), 'star_consumer': star_consumers and draw(st.booleans()), 'second_root': draw(st.integers(0, 3)) == 0}
+    docformat = draw(st.integers(0, 6)) == 0   # the package sets __docformat__, class docstrings declare attributes in fields of that format
+    extra = {'docformat': docformat, 'cycle': cycles and draw(st.booleans()), 'star_consumer': star_consumers and draw(st.booleans()), 'second_root': draw(st.integers(0, 3)) == 0}
     return {'impl': impl, 'exports': exports, 'consumers': consumers, 'extra': extra}
 
 
@@ -122,7 +123,10 @@ def to_files(proj: Dict[str, Any]) -> Tuple[Dict[str, str], Dict[str, Any]]:
             defs[d['name']] = (im['mod'], d)
             if d['kind'] == 'class':
                 lines.append('class %s%s:' % (d['name'], '(' + ', '.join(b[1] for b in d['bases']) + ')' if d['bases'] else ''))
-                lines.append('    """ID:%d"""' % d['id'])
+                if proj['extra'].get('docformat'):
+                    lines += ['    """ID:%d' % d['id'], '', '    :ivar fx%d: declared by a field' % d['id'], '    """']
+                else:
+                    lines.append('    """ID:%d"""' % d['id'])
                 for mname in d['members']:
                     lines.append('    def %s(self):' % mname)
                     lines.append('        """ID:%d.%s"""' % (d['id'], mname))
@@ -142,7 +146,7 @@ def to_files(proj: Dict[str, Any]) -> Tuple[Dict[str, str], Dict[str, Any]]:
                 lines += ['class %s:' % e['as'], '    """ID:%d"""' % e['clash_id'], '    def cm(self):', '        """ID:%d.cm"""' % e['clash_id']]
                 defs['__clash__' + e['as']] = (im['mod'], {'name': e['as'], 'id': e['clash_id'], 'kind': 'class', 'bases': [], 'members': ['cm'], 'clash': True})
         files['p/%s.py' % im['mod']] = '\n'.join(lines) + '\n'
-    pkg_lines = ['"""package p"""']
+    pkg_lines = ['"""package p"""'] + (['__docformat__ = "restructuredtext"'] if proj['extra'].get('docformat') else [])
     api_lines = ['"""api module"""']
     pkg_all: List[str] = []
     api_all: List[str] = []
